@@ -14,7 +14,8 @@ use std::collections::BTreeMap;
 
 /// gap marker inside templates: a place where SAS ignores blanks and comments
 const GAP: char = '~';
-pub const FILLERS: &[&str] = &["", " ", " /*c*/\n", "/*a*//*b*/", "/*c*/ "];
+/// the last filler is a run of 66 hidden tokens: longer than any bounded look-behind window
+pub const FILLERS: &[&str] = &["", " ", " /*c*/\n", "/*a*//*b*/", "/*c*/ ", "/*c*/ /*c*/ /*c*/ /*c*/ /*c*/ /*c*/ /*c*/ /*c*/ /*c*/ /*c*/ /*c*/ /*c*/ /*c*/ /*c*/ /*c*/ /*c*/ /*c*/ /*c*/ /*c*/ /*c*/ /*c*/ /*c*/ /*c*/ /*c*/ /*c*/ /*c*/ /*c*/ /*c*/ /*c*/ /*c*/ /*c*/ /*c*/ /*c*/ "];
 
 /// (own type, template with one `{}` hole, hole type)
 /// types: S statement, T macro text, O open-code value, E integer expression operand,
@@ -23,6 +24,8 @@ pub const FILLERS: &[&str] = &["", " ", " /*c*/\n", "/*a*//*b*/", "/*c*/ "];
 const CONTEXTS: &[(char, &str, char)] = &[
     ('S', "%macro m~;~{} %mend~;", 'S'),
     ('S', "%macro m~(~a~,~b~=~1~)~/~des=\"x\"~;~{} %mend m~;", 'S'),
+    // names of exactly the maximal SAS length (32)
+    ('S', "%macro n2345678901234567890123456789012~(~p2345678901234567890123456789012~=~1~,~q2345678901234567890123456789012~)~;~{} %mend n2345678901234567890123456789012~;", 'S'),
     ('S', "%do~;~{} %end~;", 'S'),
     ('S', "%do i=1 %to 3~;~{} %end;", 'S'),
     ('S', "%do i~=~1 %to 9 %by 2;~{} %end;", 'S'),
@@ -102,7 +105,7 @@ const LEAVES: &[(char, &[&str])] = &[
     ('A', &["a", "&v", "a b", "(1,2)", "'a,b'", ""]),
     ('Q', &["a", "&v", "&v.x", "%m(1)", " ", ""]),
     ('N', &["a", "%let x=1;", "&v", "a,b"]),
-    ('V', &["a", "&v", "&&v&i", "a&i"]),
+    ('V', &["a", "&v", "&&v&i", "a&i", "v2345678901234567890123456789012"]),
 ];
 
 /// which context types may fill a hole of type `hole`
@@ -168,7 +171,8 @@ pub fn programs(d: usize, with_fillers: bool) -> Vec<String> {
     let ch = chains(d);
     let mut v = Vec::new();
     for p in &ch[&'S'] {
-        let fillers: &[&str] = if with_fillers { FILLERS } else { &[""] };
+        // (without the long hidden run: these programs are cut at every character)
+        let fillers: &[&str] = if with_fillers { &FILLERS[..5] } else { &[""] };
         for f in fillers {
             let mut s = String::new();
             apply_filler(p, f, &mut s);
@@ -205,6 +209,9 @@ pub fn c12_check(src: &str, r: &LexResult) -> Vec<String> {
 /// end-configuration trace along the token boundaries of a program: states and transitions of
 /// the mode machine exercised by well-formed programs
 fn trace_program(local: &mut Local, src: &str, r: &LexResult) {
+    if src.len() > 4096 {
+        return; // one lexer run per token boundary: quadratic, pointless for the deep-nesting items
+    }
     let mut prev: Option<u64> = cfg_of("");
     let infos: Vec<_> = r.buffer.iter_tokens_infos().collect();
     let mut last_off = usize::MAX;
@@ -425,7 +432,7 @@ fn c12_run(cfg: &Config) -> PropRun {
     report.distinct_nontrivial = ex.distinct_nontrivial.load(std::sync::atomic::Ordering::Relaxed);
     PropRun {
         report,
-        rule: format!("every derivation chain of the construct grammar G ({} contexts, 9 hole types) of depth <= {} with every gap filler of {{none, blank, blank+comment+newline, two adjacent comments, comment+blank}}, and of depth <= {d} with one of these fillers per chain (rotating over the chain index); every ordered pair of programs of depth <= {dd}; one well-formed instance of every macro statement keyword and every argument-taking built-in function inside every statement context of depth <= 2 with every filler; non-trivial = mode stack depth >= 6 reached; states/transitions = end configurations at the token boundaries of every {trace_every}th program", CONTEXTS.len(), d - 1),
+        rule: format!("every derivation chain of the construct grammar G ({} contexts, 9 hole types) of depth <= {} with every gap filler of {{none, blank, blank+comment+newline, two adjacent comments, comment+blank, a run of 66 hidden tokens}}, and of depth <= {d} with one of these fillers per chain (rotating over the chain index); every ordered pair of programs of depth <= {dd}; one well-formed instance of every macro statement keyword and every argument-taking built-in function inside every statement context of depth <= 2 with every filler; non-trivial = mode stack depth >= 6 reached; states/transitions = end configurations at the token boundaries of every {trace_every}th program", CONTEXTS.len(), d - 1),
         oracle: "no error at all; end-of-input configuration = ([Default], nesting 0, pending [false], no checkpoint)".into(),
     }
 }
@@ -562,7 +569,7 @@ fn build_call(head: &str, model: ArgModel, args: &[(bool, usize)], filler: &str,
         if *named {
             // the name of a named argument may itself be a text expression; rotate through the
             // shapes so that every (position, value shape) meets every name shape in some item
-            let names = ["k{}", "&n", "&n.", "k{}&n", "k{}&n.", "&&n&i", "&n.k{}"];
+            let names = ["k{}", "&n", "&n.", "k{}&n", "k{}&n.", "&&n&i", "&n.k{}", "%n&n", "%a%b", "%n&n.k{}", "k{}%n"];
             let name = names[(i + *s + args.len()) % names.len()].replace("{}", &i.to_string());
             v.push(other(&name));
             v.push(gap(filler));
@@ -1209,6 +1216,15 @@ fn c14_items(tier: Tier) -> Vec<Deletion> {
         let whole = format!("%do %while{f}(&i<3");
         let at = whole.len();
         add("rparen-open-at-eof", whole, String::new(), E::MissingExpectedRParen, T::RPAREN, Some(at), vec![]);
+    }
+    // parentheses nested across the 2^8 and 2^16 thresholds, all still open at end of input
+    for k in [1usize, 255, 256, 257, 65_535, 65_536, 65_537] {
+        for head in ["%if ", "%eval(", "%m(", "%str(", "%let a=%sysevalf(", "%do i=1 %to ", "%m(a=", "%put %scan(a,"] {
+            let whole = format!("{head}{}1", "(".repeat(k));
+            let at = whole.len();
+            let allowed = vec![E::MissingExpectedRParen, E::MissingExpectedSemiOrEOF];
+            add("rparen-open-at-eof-deep", whole, String::new(), E::MissingExpectedRParen, T::RPAREN, Some(at), allowed);
+        }
     }
     // the ',' after the first %scan/%substr argument: reported at the call's closing ')'
     for head in ["%scan", "%qscan", "%kscan", "%qkscan", "%substr", "%qsubstr", "%ksubstr", "%qksubstr"] {
